@@ -47,6 +47,10 @@ class WModel(torch.nn.Module):
             self.W[1, 0, :2] = 1.0
             self.W[2, 3, :] = torch.arange(L).float() % 2
             self.W = self.W.reshape(3, -1)
+        elif kind == "linear64":
+            # a double-precision model whose integer weights carry perturbations of a few 1e-9: candidates that would tie otherwise differ
+            # by less than single-precision resolution
+            self.W = torch.randint(-3, 4, (3, A * L), generator=g).double() + 1e-9 * torch.randint(-5, 6, (3, A * L), generator=g).double()
         elif kind == "profile":
             # a profile head: output (batch, 3 tracks, L - 1 positions); the mask selects tracks
             self.convp = torch.nn.Conv1d(A, 3, 2)
@@ -67,6 +71,8 @@ class WModel(torch.nn.Module):
                 self.conv.bias.copy_(torch.randint(-1, 2, (2,), generator=g).float())
 
     def forward(self, X):
+        if self.kind == "linear64":
+            return X.double().flatten(1) @ self.W.T
         X = X.float()
         if self.kind in ("linear", "lastG", "tail"):
             return X.flatten(1) @ self.W.T
@@ -105,6 +111,8 @@ def shards(tier, seed):
         out.append(dict(name="L6/%s/m%d/signed_loss" % (kind, mi), L=6, kind=kind, mi=mi, masked=True, loss="signed", weight=2 ** 6 * len(MOTIF_SETS[mi])))
     for kind, mi in (("lastG", 1), ("linear", 2), ("linear", 5)):
         out.append(dict(name="L6/%s/m%d/pinball_loss" % (kind, mi), L=6, kind=kind, mi=mi, masked=mi != 2, loss="pinball", weight=2 ** 6 * len(MOTIF_SETS[mi])))
+    for mi in (1, 2, 4):
+        out.append(dict(name="L6/linear64/m%d/nomask" % mi, L=6, kind="linear64", mi=mi, masked=False, weight=2 ** 6 * len(MOTIF_SETS[mi])))
     # non-default alphabet orders (the rows of X follow the alphabet handed to the call; motifs are strings)
     for alph, kind, mi in (("ACTG", "lastG", 0), ("TGCA", "linear", 2), ("GATC", "linear", 4), ("ACTG", "linear", 1)):
         out.append(dict(name="L6/%s/m%d/alphabet_%s" % (kind, mi, alph), L=6, kind=kind, mi=mi, masked=False, alph=alph,
@@ -145,6 +153,8 @@ def run_shard(sh, tier, seed):
     y = torch.tensor([[3.0, 1.0, 2.0]])
     if kind == "profile":
         y = (torch.arange(3 * (L - 1)).reshape(1, 3, L - 1) % 3).float()
+    if kind == "linear64":
+        y = y.double()
     lk = sh.get("loss", "mse")
     lkw = {} if lk == "mse" else dict(loss=LOSSES[lk])
     toolong = any(len(m) > L for m in motifs)
@@ -244,7 +254,7 @@ def run_shard(sh, tier, seed):
         if step_of.get(s) is None:
             continue
         for max_iter in (0, 1, 2, 3, -1):
-            for tol in ((0, 0.5, 1, 1000.0) if kind != "profile" else (0, 0.05, 0.125, 0.25, 0.5, 1)):
+            for tol in ((0, 1000.0) if kind == "linear64" else ((0, 0.5, 1, 1000.0) if kind != "profile" else (0, 0.05, 0.125, 0.25, 0.5, 1))):
                 exp = s
                 it = 0
                 while True:
@@ -256,7 +266,7 @@ def run_shard(sh, tier, seed):
                         break
                     # the losses are float32 tensors in the implementation, and so is their difference: at the boundary
                     # improvement == tol the comparison must be made on the float32 difference
-                    improvement = float(numpy.float32(loss_of(exp)) - numpy.float32(loss_of(nx)))
+                    improvement = float(numpy.float32(loss_of(exp)) - numpy.float32(loss_of(nx))) if kind != "linear64" else loss_of(exp) - loss_of(nx)
                     exp = nx
                     if improvement <= tol:
                         break
